@@ -230,6 +230,77 @@ def _mk_views():
     return vs, rows, rows_b
 
 
+def check_edit_consistency(chk):
+    """One view, iterated, then the (mutable) sources are edited IN PLACE - new data with other key / column-value sets, or
+    the same data with the fields in another order (keys are given by name) - then iterated again.  cache=False: the
+    second pass is exactly what a fresh default call delivers now.  Otherwise (cache=True, presorted=True): it is either
+    that or a replay of the first pass, never a mixture of old structure and new data."""
+    import petl as etl
+    v1 = [[1, 'a', 1], [1, 'b', 2], [2, 'a', 3]]
+    v2 = [[1, 'a', 10], [2, 'c', 20], [3, 'a', 30], [3, 'd', 40]]
+    w1 = [[1, 'x'], [2, 'y']]
+    w2 = [[2, 'y2'], [3, 'z']]
+    ops = [('sort', 1, lambda s, kw: etl.sort(s[0], 'k', **kw), False),
+           ('distinct(key)', 1, lambda s, kw: etl.distinct(s[0], 'k', **kw), True),
+           ('distinct(key,count)', 1, lambda s, kw: etl.distinct(s[0], 'k', count='n', **kw), True),
+           ('distinct', 1, lambda s, kw: etl.distinct(s[0], **kw), True),
+           ('unique', 1, lambda s, kw: etl.unique(s[0], 'k', **kw), True),
+           ('duplicates', 1, lambda s, kw: etl.duplicates(s[0], 'k', **kw), True),
+           ('conflicts', 1, lambda s, kw: etl.conflicts(s[0], 'k', **kw), True),
+           ('aggregate', 1, lambda s, kw: etl.aggregate(s[0], 'k', list, 'v', **kw), True),
+           ('aggregate(multi)', 1, lambda s, kw: etl.aggregate(s[0], 'k', OrderedDict([('c', len), ('vs', ('v', list))]), **kw), True),
+           ('rowreduce', 1, lambda s, kw: etl.rowreduce(s[0], 'k', lambda k, rs: [k, [tuple(r) for r in rs]], header=['k', 'rs'], **kw), True),
+           ('rowgroupmap', 1, lambda s, kw: etl.rowgroupmap(s[0], 'k', lambda k, rs: [[k, tuple(r)] for r in rs], header=['k', 'r'], **kw), True),
+           ('fold', 1, lambda s, kw: etl.fold(s[0], 'k', lambda a, b: a + b, 'v', **kw), True),
+           ('groupselectfirst', 1, lambda s, kw: etl.groupselectfirst(s[0], 'k', **kw), True),
+           ('groupselectmax', 1, lambda s, kw: etl.groupselectmax(s[0], 'k', 'v', **kw), True),
+           ('mergeduplicates', 1, lambda s, kw: etl.mergeduplicates(s[0], 'k', **kw), True),
+           ('pivot', 1, lambda s, kw: etl.pivot(s[0], 'k', 'f', 'v', sum, **kw), True),
+           ('recast', 1, lambda s, kw: etl.recast(etl.cut(s[0], 'k', 'f', 'v'), key='k', variablefield='f', valuefield='v', reducers={'a': sum, 'b': sum, 'c': sum, 'd': sum}), False),
+           ('join', 2, lambda s, kw: etl.join(s[0], s[1], key='k', **kw), True),
+           ('leftjoin', 2, lambda s, kw: etl.leftjoin(s[0], s[1], key='k', **kw), True),
+           ('outerjoin', 2, lambda s, kw: etl.outerjoin(s[0], s[1], key='k', **kw), True),
+           ('antijoin', 2, lambda s, kw: etl.antijoin(s[0], s[1], key='k', **kw), True),
+           ('lookupjoin', 2, lambda s, kw: etl.lookupjoin(s[0], s[1], key='k', **kw), True),
+           ('complement', 1, lambda s, kw: etl.complement(s[0], [['k', 'f', 'v'], [1, 'a', 1], [3, 'a', 30]], **kw), True),
+           ('intersection', 1, lambda s, kw: etl.intersection(s[0], [['k', 'f', 'v'], [1, 'a', 1], [3, 'a', 30]], **kw), True),
+           ('mergesort', 2, lambda s, kw: etl.mergesort(s[0], s[0], key='k', **kw), True)]
+    for name, nsrc, mk, has_presorted in ops:
+        strategies = [('cache=False', {'cache': False}), ('default', {}), ('buffersize=1', {'buffersize': 1})]
+        if has_presorted:
+            strategies.append(('presorted=True', {'presorted': True}))
+        if name == 'recast':
+            strategies = [('default', {})]
+        for sname, kw in strategies:
+            for edit in ('data', 'fields'):
+                if edit == 'fields' and ('presorted' in kw or name in ('complement', 'intersection')):
+                    continue              # permuted fields are no longer sorted by the whole row / differ from the other table
+                s0 = [['k', 'f', 'v']] + [list(r) for r in v1]
+                s1 = [['k', 'w']] + [list(r) for r in w1]
+                try:
+                    view = mk([s0, s1], dict(kw))
+                    p1 = [tuple(r) for r in view]
+                    if edit == 'data':
+                        s0[1:] = [list(r) for r in v2]
+                        s1[1:] = [list(r) for r in w2]
+                    else:
+                        s0[:] = [['f', 'k', 'v']] + [[r[1], r[0], r[2]] for r in s0[1:]]
+                    p2 = [tuple(r) for r in view]
+                    fresh = [tuple(r) for r in mk([s0, s1], {})]
+                except Exception as e:
+                    chk.violation({'op': name, 'kind': 'edit-consistency'}, '%s %s, %s edited in place between two passes: raised %r' % (name, sname, edit, e),
+                                  {'kind': 'edit-consistency', 'op': name, 'strategy': sname, 'edit': edit})
+                    continue
+                chk.count(('edit-consistency', name, sname, edit))
+                chk.replayed += 1
+                strict = kw.get('cache') is False
+                if p2 != fresh and (strict or p2 != p1):
+                    chk.violation({'op': name, 'kind': 'edit-consistency'},
+                                  '%s %s, %s edited in place between two passes of one view: second pass %r; a fresh default call delivers %r%s'
+                                  % (name, sname, edit, p2, fresh, '' if strict else '; the first pass was %r' % (p1,)),
+                                  {'kind': 'edit-consistency', 'op': name, 'strategy': sname, 'edit': edit})
+
+
 def _versions_in(rows):
     vs = set()
 
@@ -465,6 +536,7 @@ def run(tier, seed):
     profiles = ['ints', 'mixed', 'equalreps'] if not full else ['ints', 'mixed', 'text', 'compound', 'equalreps']
     check_differential(chk, gens, profiles, full, rng)
     check_scale(chk, rng)
+    check_edit_consistency(chk)
     traces = record_traces(3000 if full else 400, seed)
     validate_traces(chk, traces, seed)
     chk.exhaustive = full
